@@ -131,7 +131,7 @@ NestFamilies == <<
   <<"juxt",   "",   "2", " m">>,      <<"per",    "",   "1", " per 2">>,
   <<"conv",   "",   "1", " -> 1">>,   <<"apply",  "",   "1", " |> sin">>,
   <<"cmpand", "",   "true", " && true">>,  <<"field", "", "zq", ".a">>,
-  <<"fnargs", "fn zf(", "x", "">>,    <<"lines",  "",   "1", "\n1">> >>
+  <<"fnargs", "fn zf(", "x", "">>,    <<"callee", "(",  "sin", ")(1)">> >>
 
 NestParts(f, n) == (IF f[2] = "" THEN << >> ELSE << P(f[2], n) >>) \o << P(f[3], 1) >>
                    \o (IF f[4] = "" THEN << >> ELSE << P(f[4], n) >>)
@@ -202,7 +202,10 @@ SizeCase(kind, n, parts, rep) == [fam |-> "size-" \o kind, id |-> kind \o "/" \o
 SizeCases(long) ==
      { SizeCase("list", SizeCounts[i], << P("[", 1), P("1, ", SizeCounts[i]), P("1]", 1) >>, 1) : i \in 1..Len(SizeCounts) }
   \cup { SizeCase("branch", SizeCounts[i], << P("if true then [", 1), P("1, ", SizeCounts[i]), P("1] else []", 1) >>, 1) : i \in 1..Len(SizeCounts) }
+  \* the branch that is jumped over is longer than a 16-bit jump offset
+  \cup { SizeCase("skipped-branch", SizeCounts[i], << P("if false then [", 1), P("1, ", SizeCounts[i]), P("1] else []", 1) >>, 1) : i \in 1..Len(SizeCounts) }
   \cup { SizeCase("strings", SizeCounts[i], << P("[", 1), P("\"a\", ", SizeCounts[i]), P("\"a\"]", 1) >>, 1) : i \in 1..Len(SizeCounts) }
+  \cup { SizeCase("lines", SizeCounts[i], << P("1\n", SizeCounts[i]) >>, 1) : i \in 1..Len(SizeCounts) }
   \cup { SizeCase("lets", 1000, << P("let zq = 1\n", 1000) >>, 1) }
   \* one long session: the same 1000-literal input 70 times (70 000 literals in all) ...
   \cup { SizeCase("session", 1000, << P("[", 1), P("1, ", 999), P("1]", 1) >>, 70) }
